@@ -222,6 +222,10 @@ _SEQ_FUNCS = {"struct.pack", "str", "bytes", "bytearray", "repr", "encode_key", 
               "sorted"}
 
 
+_METHOD_REDUCTIONS = {"any", "all"}
+_MODULE_NAMES = {"np", "numpy", "bn", "math", "scipy", "stats", "kernels", "builtins", "operator"}
+
+
 def _is_sequence(e: ast.AST) -> bool:
     """Syntactically a str / bytes / list / tuple value: `+` on it is concatenation, not addition."""
     if isinstance(e, ast.Constant):
@@ -421,6 +425,11 @@ class PolyEnv:
             if inner is not None and inner[:1] in "[(" and inner[-1:] in "])":
                 # tuple([...]) / list((...)) of a literal sequence is that sequence
                 return ("(" + inner[1:-1] + ")") if dotted(e.func) == "tuple" else ("[" + inner[1:-1] + "]")
+        if isinstance(e, ast.Call) and isinstance(e.func, ast.Attribute) and e.func.attr in _METHOD_REDUCTIONS \
+                and not (isinstance(e.func.value, ast.Name) and e.func.value.id in _MODULE_NAMES):
+            # x.any() is np.any(x): the method form of an array reduction is its function form
+            return self.atom_name(ast.Call(func=ast.Attribute(value=ast.Name(id="np", ctx=ast.Load()), attr=e.func.attr, ctx=ast.Load()),
+                                           args=[e.func.value] + list(e.args), keywords=list(e.keywords)))
         if isinstance(e, ast.Call):
             fn = dotted(e.func) or self._operand(e.func)
             pos = list(e.args)
